@@ -14,6 +14,7 @@ import Driver.Bpf
 import Driver.Limiter
 import Driver.HttpProbe
 import Driver.Engine
+import Driver.Pipe
 
 /-!
 Line-protocol driver: one case per input line, `tag \t fields… \t observed`, one answer per line,
@@ -36,6 +37,7 @@ def dispatch (line : String) : String :=
   | "bpfr" :: rest => (handleBpfr rest).getD "BAD-CASE\t0"
   | "c03" :: rest => (handleC03 rest).getD "BAD-CASE\t0"
   | "httpprobe" :: rest => (handleHttpProbe rest).getD "BAD-CASE\t0"
+  | "pipe" :: rest => (handlePipe rest).getD "BAD-CASE\t0"
   | "pports" :: rest => (handlePPorts rest).getD "BAD-CASE\t0"
   | "prate" :: rest => (handlePRate rest).getD "BAD-CASE\t0"
   | "ppayload" :: rest => (handlePPayload rest).getD "BAD-CASE\t0"
